@@ -44,6 +44,13 @@ func checkParse(r *core.Run, d, text string) *ETree {
 		return nil
 	}
 	tree := mustETree(strings.Fields(impl[3:]))
+	// token conservation (`parse_keeps_lexemes`): the printed form of what the parser returns holds exactly the literal
+	// and identifier tokens of the text, in order – on the real parser / printer / tokenizer and in the model
+	if cons := r.Do(fmt.Sprintf("C13.expr.conserve %s %s %d %s", d, hexS(text), len(toks), strings.Join(toks, " "))); strings.HasPrefix(cons, "ok ") {
+		if f := strings.SplitN(cons[3:], " | ", 2); len(f) == 2 {
+			r.Check(f[0] == f[1], "expr-lexeme-lost", fmt.Sprintf("[%s] %s: the value-carrying tokens read (%s) are not those of the printed form (%s)", d, trunc(text), trunc(f[0]), trunc(f[1])))
+		}
+	}
 	r.Diff("C13.expr.producible "+tree.String(), "yes")
 	rt := r.Do("C13.expr.roundtrip " + d + " " + tree.String())
 	r.Check(rt == "same", "expr-roundtrip:parsed", fmt.Sprintf("[%s] %s parses to %s; printed and parsed again: %s", d, trunc(text), trunc(tree.String()), trunc(rt)))
